@@ -1499,6 +1499,10 @@ Proof.
     destruct (group_lists (exN scs) sc m members s1) as [[s' logs] rz] eqn:E. cbn [fst].
     apply (inv_bt_group_lists _ (good_exN scs) sc m members s1 s' logs rz I B); [|exact E].
     intros a Ha. destruct I as [(_ & _ & W3 & _) _]. apply (W3 s0 members El). exact Ha.
+  - destruct (lookup s0 (sets s1)) as [members|]; [|split; assumption].
+    destruct (m <=? 0); split; assumption.
+  - destruct (lookup s0 (sets s1)) as [members|]; [|split; assumption].
+    destruct (m <=? 0); split; assumption.
 Qed.
 
 (* the state reached by a history *)
